@@ -197,6 +197,15 @@ func init() {
 				if i == 7 {
 					m.CertificateAuthorities = [][]byte{fill(c, 3000), {}, c.Bytes(1)}
 				}
+				if i >= 8 && i < 14 {
+					m.CertificateAuthorities = [][]byte{c.Bytes(253 + (i - 8) - 2), c.Bytes(1)} // CA list total at 254..259+
+				}
+				if i >= 14 && i < 17 && has {
+					m.SupportedSignatureAlgorithms = randU16s(c, 126+(i-14)*1) // 252..256 bytes
+				}
+				if i == 17 {
+					m.CertificateTypes = c.Bytes(253)
+				}
 				out = append(out, val{has, m})
 			}
 			return out
@@ -233,6 +242,11 @@ func init() {
 					m.Certificates = [][]byte{{}, {7}}
 				case 8:
 					m.Certificates = [][]byte{fill(c, 1200), c.Bytes(256)}
+				case 9, 10, 11, 12, 13, 14:
+					// one certificate / the list / the message at 253..258
+					m.Certificates = [][]byte{c.Bytes(253 + (i - 9) - []int{0, 3, 6}[i%3])}
+				case 15, 16:
+					m.Certificates = [][]byte{c.Bytes(100), c.Bytes(509 + i - 15 - 106)}
 				}
 				out = append(out, val{false, m})
 			}
